@@ -30,6 +30,29 @@ theorem entries_keys_pairwise : ∀ (s : Store), s.entries.Pairwise (fun a b => 
     simp only [ne_eq, decide_eq_true_eq] at this
     exact fun e => this e.symm
 
+/-- restricting a store to the keys satisfying `p` restricts its lookup function -/
+theorem get_filter_key (p : Bytes → Bool) : ∀ (s : Store) (k : Bytes),
+    Store.get (s.filter (fun e => p e.1)) k = if p k then s.get k else none
+  | [], k => by simp
+  | (k0, v0) :: r, k => by
+    rw [List.filter_cons]
+    by_cases hp : p k0 = true
+    · simp only [hp, ↓reduceIte, get_cons]
+      rw [get_filter_key p r k]
+      by_cases h : k0 = k
+      · subst h; simp [hp]
+      · simp [h]
+    · simp only [hp, Bool.false_eq_true, ↓reduceIte, get_cons]
+      rw [get_filter_key p r k]
+      by_cases h : k0 = k
+      · subst h; simp [hp]
+      · simp [h]
+
+theorem mem_entries_filter (p : Bytes → Bool) (s : Store) (k : Bytes) (v : Val) :
+    (k, v) ∈ Store.entries (s.filter (fun e => p e.1)) ↔ p k = true ∧ s.get k = some v := by
+  rw [mem_entries_iff, get_filter_key]
+  by_cases hp : p k = true <;> simp [hp]
+
 /-! ### insertion sort -/
 
 theorem mem_insertEntry (e x : Entry) : ∀ (l : List Entry), x ∈ insertEntry e l ↔ x = e ∨ x ∈ l
@@ -105,12 +128,13 @@ theorem mem_prefixStore (s : Store) (pre : Bytes) (e : Entry) :
   rw [mem_sortEntries, List.mem_map]
   constructor
   · rintro ⟨⟨k, v⟩, hm, rfl⟩
-    obtain ⟨hm1, hm2⟩ := List.mem_filter.mp hm
+    obtain ⟨hm2, hm1⟩ := (mem_entries_filter (fun k => pre.isPrefixOf k) s k v).mp hm
     obtain ⟨t, rfl⟩ := isPrefixOf_iff.mp hm2
     simp only [List.drop_left']
-    exact (mem_entries_iff s _ _).mp hm1
+    exact hm1
   · intro h
-    refine ⟨(pre ++ e.1, e.2), List.mem_filter.mpr ⟨(mem_entries_iff s _ _).mpr h, isPrefixOf_iff.mpr ⟨_, rfl⟩⟩, ?_⟩
+    refine ⟨(pre ++ e.1, e.2), (mem_entries_filter (fun k => pre.isPrefixOf k) s _ _).mpr
+      ⟨isPrefixOf_iff.mpr ⟨_, rfl⟩, h⟩, ?_⟩
     simp
 
 /-- a prefix scan is strictly sorted by key: each stored entry once, in byte order -/
@@ -118,10 +142,10 @@ theorem sorted_prefixStore (s : Store) (pre : Bytes) : Sorted (prefixStore s pre
   unfold prefixStore
   apply sorted_sortEntries
   rw [List.pairwise_map]
-  refine ((entries_keys_pairwise s).filter _).imp_of_mem ?_
+  refine (entries_keys_pairwise _).imp_of_mem ?_
   intro a b ha hb hne
-  obtain ⟨ta, hta⟩ := isPrefixOf_iff.mp (List.mem_filter.mp ha).2
-  obtain ⟨tb, htb⟩ := isPrefixOf_iff.mp (List.mem_filter.mp hb).2
+  obtain ⟨ta, hta⟩ := isPrefixOf_iff.mp ((mem_entries_filter (fun k => pre.isPrefixOf k) s a.1 a.2).mp ha).1
+  obtain ⟨tb, htb⟩ := isPrefixOf_iff.mp ((mem_entries_filter (fun k => pre.isPrefixOf k) s b.1 b.2).mp hb).1
   simp only [hta, htb, List.drop_left', ne_eq]
   intro e
   exact hne (by rw [hta, htb, e])
